@@ -61,15 +61,41 @@ void JudgeHull(const Manifold& h, const std::vector<vec3>& pts, bool exactDegene
     if (!in.count({v.x + 0.0, v.y + 0.0, v.z + 0.0})) { o.fail("hull:vertex-not-input", verif::fmt("hull vertex (%.17g,%.17g,%.17g) is not an input point", v.x, v.y, v.z)); return; }
   // quickhull discards points within its own epsilon (1e-7 * largest |coordinate|) of a face
   double eps = 2e-7 * scale;
+  bool finFace = false;
+  std::string finMsg;
+  // Convexity in the solid sense: every non-sliver face lies in a supporting
+  // plane.  Quickhull keeps collinear/coplanar input points as vertices and may
+  // triangulate a flat face with a fold (a coplanar triangle facing inward);
+  // that changes nothing about the solid, so a plane is accepted when all
+  // points are on one side of it, whichever side.  A plane with points on both
+  // sides by more than eps cuts through the hull: not convex.
   for (size_t i = 0; i < s.t.size(); ++i) {
     V3 a = s.A(i), n = oracle::cross(s.B(i) - a, s.C(i) - a);
     double l = oracle::norm(n);
-    if (!(l > 0)) continue;
-    for (auto& p : pts) {
-      double dd = oracle::dot(V3(p.x, p.y, p.z) - a, n) / l;
-      if (dd > eps) { o.fail("hull:point-outside", verif::fmt("input point (%.17g,%.17g,%.17g) is %.3g outside hull face %zu", p.x, p.y, p.z, dd, i)); return; }
-    }
+    double e2 = std::max({oracle::dot(s.B(i) - a, s.B(i) - a), oracle::dot(s.C(i) - a, s.C(i) - a), oracle::dot(s.C(i) - s.B(i), s.C(i) - s.B(i))});
+    if (!(l > 1e-7 * e2)) continue;
+    double mx = 0, mn = 0;
+    for (auto& p : pts) { double dd = oracle::dot(V3(p.x, p.y, p.z) - a, n) / l; mx = std::max(mx, dd); mn = std::min(mn, dd); }
+    if (mx > eps && mn < -eps) { finFace = true; finMsg = verif::fmt("hull face %zu has input points %.3g outside and %.3g inside its plane", i, mx, -mn); }
   }
+  // containment: no input point is outside the hull solid by more than eps
+  for (auto& p : pts) {
+    V3 q(p.x, p.y, p.z);
+    if (oracle::SurfaceDist(s, q) <= eps) continue;
+    double w = oracle::Winding(s, q);
+    if (std::lround(w) != 1) { o.fail("hull:point-outside", verif::fmt("input point (%.17g,%.17g,%.17g) is outside the hull (winding %.6g, distance %.3g)", p.x, p.y, p.z, w, oracle::SurfaceDist(s, q))); return; }
+  }
+  // convexity of the solid: midpoints of input-point pairs are inside or on it
+  for (size_t i = 0; i < pts.size(); i += std::max<size_t>(1, pts.size() / 12))
+    for (size_t j = i + 1; j < pts.size(); j += std::max<size_t>(1, pts.size() / 12)) {
+      V3 q((pts[i].x + pts[j].x) / 2, (pts[i].y + pts[j].y) / 2, (pts[i].z + pts[j].z) / 2);
+      if (oracle::SurfaceDist(s, q) <= eps) continue;
+      double w = oracle::Winding(s, q);
+      if (std::lround(w) != 1) { o.fail("hull:not-convex", verif::fmt("midpoint of input points %zu and %zu is outside the hull (winding %.6g)", i, j, w)); return; }
+    }
+  // a face that is not in a supporting plane while the solid is the right convex
+  // set is a zero-volume fin reaching into the interior: known finding F14
+  if (finFace) { o.known("F14-hull-fin", "hull:not-supporting-plane", finMsg); return; }
   if (oracle::Volume(s) <= 0) { o.fail("hull:volume", "non-positive volume"); return; }
 }
 
@@ -185,16 +211,20 @@ void ModeMinkowski(Tape& t, Outcome& o) {
   auto& d = o.desc;
   bool ca, cb;
   d << "A=";
-  Manifold A = SmallSolid(t, d, ca, false);
+  bool aCentred = t.chance(96);
+  Manifold A = SmallSolid(t, d, ca, aCentred);
   d << " B=";
   Manifold B = SmallSolid(t, d, cb, true);  // contains the origin
   bool diff = t.chance(96);
-  bool swapped = !diff && t.flip();
-  d << (diff ? " MinkowskiDifference(A,B)" : swapped ? " MinkowskiSum(B,A)" : " MinkowskiSum(A,B)");
+  // the statement is about MinkowskiSum(A, B) with the *argument* B containing
+  // the origin; the operands are swapped only when A contains it as well
+  bool swapped = !diff && aCentred && t.flip();
   Soup sa = oracle::MakeSoup(A), sb = oracle::MakeSoup(B);
   double scale = std::max(sa.scale(), sb.scale()) + 1;
   // B must really contain the origin (by a margin): precondition by construction, verified
   if (oracle::Classify(sb, V3(0, 0, 0), 1e-3) != 1) { o.exclude("structuring solid does not contain the origin by margin"); return; }
+  if (swapped && oracle::Classify(sa, V3(0, 0, 0), 1e-3) != 1) swapped = false;
+  d << (diff ? " MinkowskiDifference(A,B)" : swapped ? " MinkowskiSum(B,A)" : " MinkowskiSum(A,B)");
   Manifold R = diff ? A.MinkowskiDifference(B) : swapped ? B.MinkowskiSum(A) : A.MinkowskiSum(B);
   if (R.Status() != Manifold::Error::NoError) { o.fail("minkowski:status", verif::fmt("Status %d", int(R.Status()))); return; }
   oracle::TopoReport tr = oracle::CheckManifold(R);
@@ -212,7 +242,8 @@ void ModeMinkowski(Tape& t, Outcome& o) {
       V3 p = a + b;
       if (oracle::SurfaceDist(sr, p) <= g) continue;
       ++used;
-      if (oracle::Classify(sr, p, 0) != 1) { o.fail("minkowski:sum-missing", verif::fmt("a+b = (%.9g,%.9g,%.9g) with a in A, b in B is outside the sum", p.x, p.y, p.z)); return; }
+      double w = oracle::Winding(sr, p);
+      if (std::lround(w) != 1 || std::abs(w - 1) > 1e-6) { o.fail("minkowski:sum-missing", verif::fmt("a+b = (%.9g,%.9g,%.9g) with a in A, b in B has winding %.9g in the sum (surface distance %.3g)", p.x, p.y, p.z, w, oracle::SurfaceDist(sr, p))); return; }
     }
     for (int i = 0; i < 40; ++i) {
       V3 p = sample(sr);
